@@ -48,6 +48,10 @@ pub struct IntentLine {
     #[serde(default)]
     pub pos_before: Vec<u8>,
     pub word: Word,
+    /// address the level through the generated `help` subcommand (`prog help <path> <word>`): the tree below
+    /// `help` mirrors the subcommands, hidden ones included
+    #[serde(default)]
+    pub via_help: bool,
 }
 
 #[derive(Clone, Debug, Hash, Serialize, Deserialize, PartialEq)]
@@ -256,6 +260,32 @@ fn globals_of<'a>(chain: &[&'a CmdSpec]) -> Vec<&'a ArgSpec> {
 /// Print an intent line. Returns None when the intent does not apply to this tree
 /// (e.g. a prefix is requested but the level has no such names).
 fn print_intent(spec: &CmdSpec, il: &IntentLine) -> Option<Printed> {
+    if il.via_help {
+        if spec.subs.is_empty() || spec.has(CmdSetting::DisableHelpSubcommand) || spec.has(CmdSetting::NoBinaryName) || spec.subs.iter().any(|s| s.all_names().iter().any(|n| n == "help")) {
+            return None;
+        }
+        let (chain, _) = resolve_level(spec, &il.path);
+        let level = *chain.last().unwrap();
+        let word = match &il.word {
+            Word::Empty => String::new(),
+            Word::SubPrefix(pick, cut) => {
+                let names: Vec<&String> = level.subs.iter().filter(|s| !s.has(CmdSetting::Hide)).map(|s| &s.name).collect();
+                if names.is_empty() {
+                    return None;
+                }
+                let chars: Vec<char> = names[*pick as usize % names.len()].chars().collect();
+                chars[..1 + (*cut as usize % chars.len())].iter().collect()
+            }
+            _ => return None,
+        };
+        let mut args: Vec<OsString> = vec![OsString::from("prog"), OsString::from("help")];
+        args.extend(chain[1..].iter().map(|c| OsString::from(&c.name)));
+        let lead = args.len();
+        let index = args.len();
+        args.push(OsString::from(&word));
+        let word_bytes = word.clone().into_bytes();
+        return Some(Printed { args, index, level_path: Vec::new(), word, word_bytes, lead });
+    }
     let (chain, mut words) = resolve_level_with(spec, &il.path, &il.pos_before);
     let level = *chain.last().unwrap();
     let globals = globals_of(&chain);
@@ -495,6 +525,7 @@ fn gen_line(rng: &mut Rng, spec: &CmdSpec) -> Line {
             before: (0..rng.usize(3)).map(|_| rng.below(16) as u8).collect(),
             pos_before: if rng.chance(1, 3) { (0..2).map(|_| rng.below(3) as u8).collect() } else { vec![] },
             word: gen_word(rng),
+            via_help: rng.chance(1, 8),
         })
     }
 }
@@ -1067,6 +1098,21 @@ fn check_intent(sc: &CompSc, line: &Line, p: &Printed, list: &[CompletionCandida
     let globals = globals_of(&chain);
     let ents = level_entities(level, &globals);
     let word = p.word.as_str();
+    if il.via_help {
+        // below `help` only subcommand names are completed: visible ones that extend the word are offered,
+        // hidden ones only when no visible one matches
+        let visible_match = level.subs.iter().any(|s| !s.has(CmdSetting::Hide) && std::iter::once(&s.name).chain(s.visible_aliases.iter()).any(|n| n.starts_with(word)));
+        for sub in &level.subs {
+            let offered = list.iter().any(|c| c.get_id().map(|i| *i == format!("command::{}", sub.name)).unwrap_or(false));
+            if sub.has(CmdSetting::Hide) && offered && visible_match {
+                return Some(("hidden-offered-with-visible", "help-subtree".into(), format!("below `help`, the hidden subcommand {} is offered although visible subcommands match", sub.name)));
+            }
+            if !sub.has(CmdSetting::Hide) && sub.name.starts_with(word) && !offered {
+                return Some(("visible-not-represented", "help-subtree".into(), format!("below `help`, the visible subcommand {} extends the word but is not offered", sub.name)));
+            }
+        }
+        return None;
+    }
     if matches!(il.word, Word::ShortOptValue(_)) {
         // the word ends in a value-taking option (by its short or a visible short alias): whatever follows is that
         // option's value, so no candidate may claim to be another flag of the level
